@@ -1,27 +1,37 @@
 import Driver.RangeSplit
 import Driver.Path
+import Driver.Iov
 /-! `driver <model>`: one op per stdin line, one canonical result line per op on stdout. -/
 
-def dispatch (model : String) : Option (List String → String) :=
+structure Model where
+  σ : Type
+  init : σ
+  step : σ → List String → σ × String
+
+def pureModel (f : List String → String) : Model := ⟨Unit, (), fun _ t => ((), f t)⟩
+
+def dispatch (model : String) : Option Model :=
   match model with
-  | "rs" => some Driver.RangeSplit.step
-  | "path" => some Driver.Path.step
+  | "rs" => some (pureModel Driver.RangeSplit.step)
+  | "path" => some (pureModel Driver.Path.step)
+  | "iov" => some ⟨Driver.Iov.St, {}, Driver.Iov.step⟩
   | _ => none
 
-partial def loop (h : IO.FS.Stream) (out : IO.FS.Stream) (f : List String → String) : IO Unit := do
+partial def loop (h : IO.FS.Stream) (out : IO.FS.Stream) (m : Model) (s : m.σ) : IO Unit := do
   let line ← h.getLine
   if line.isEmpty then return ()
   let toks := (line.trimAscii.toString.splitOn " ").filter (· ≠ "")
-  out.putStrLn (f toks)
-  loop h out f
+  let (s', r) := m.step s toks
+  out.putStrLn r
+  loop h out m s'
 
 def main (args : List String) : IO UInt32 := do
   match args with
   | [m] =>
     match dispatch m with
-    | some f =>
+    | some md =>
       let out ← IO.getStdout
-      loop (← IO.getStdin) out f
+      loop (← IO.getStdin) out md md.init
       out.flush
       return 0
     | none => IO.eprintln s!"unknown model {m}"; return 2
